@@ -23,7 +23,7 @@ import (
 
 type c06Call struct {
 	Kind   string `json:"kind"`   // call | sub
-	Cancel string `json:"cancel"` // none | before | running | race | established
+	Cancel string `json:"cancel"` // none | before | running | race | established | pending (subscription cancelled before its call was answered)
 }
 
 type c06Case struct {
@@ -78,6 +78,9 @@ func runC06(c c06Case) (*Violation, string) {
 		plan := Plan{Gate: true}
 		if cc.Kind == "sub" {
 			plan = Plan{N: 6, Pace: true, Linger: true, Early: 1}
+			if cc.Cancel == "pending" || cc.Cancel == "before" {
+				plan.Gate = true // the subscribing call is still unanswered when it is cancelled
+			}
 		}
 		go func(s *st, plan Plan) {
 			defer close(p.Done)
@@ -98,7 +101,7 @@ func runC06(c c06Case) (*Violation, string) {
 		if !rig.W.WaitStarted(s.tok, 3*time.Second) {
 			return nil, "handler for " + s.tok + " did not start"
 		}
-		if s.Kind == "sub" {
+		if s.Kind == "sub" && s.Cancel != "pending" {
 			select {
 			case <-s.p.Done:
 			case <-time.After(3 * time.Second):
@@ -112,7 +115,7 @@ func runC06(c c06Case) (*Violation, string) {
 	// cancel the chosen subset
 	for _, s := range calls {
 		switch s.Cancel {
-		case "running", "established":
+		case "running", "established", "pending":
 			s.cancel()
 		case "race":
 			go s.cancel()
@@ -169,6 +172,7 @@ func runC06(c c06Case) (*Violation, string) {
 	// finish: streams of non-cancelled subscriptions run to completion without ever seeing a done context
 	for _, s := range calls {
 		if s.Kind == "sub" {
+			rig.W.Release(s.tok) // only gated (pending / before) subscriptions wait on it
 			rig.W.Tick(s.tok, 10)
 		} else {
 			rig.W.Release(s.tok)
@@ -252,7 +256,7 @@ func TestC06(t *testing.T) {
 	rec := NewRec("C06", c06Rule)
 	defer rec.Finish(t)
 	rec.EnableJournal()
-	rec.RequireClass("cancel_before", "cancel_running", "cancel_race", "cancel_established", "cancel_none", "tr_http", "tr_ws", "with_delays")
+	rec.RequireClass("churn", "cancel_pending", "cancel_before", "cancel_running", "cancel_race", "cancel_established", "cancel_none", "tr_http", "tr_ws", "with_delays")
 	run := func(ft failer, c c06Case) {
 		nt, cl := c06NT(c)
 		rec.Run(ft, c, nt, cl, func() *Violation {
@@ -303,6 +307,32 @@ func TestC06(t *testing.T) {
 			}
 			run(t, c06Case{Transport: "ws", Calls: calls})
 		}
+		run(t, c06Case{Transport: "ws", Calls: []c06Call{{Kind: "sub", Cancel: "pending"}, {Kind: "sub", Cancel: "none"}, {Kind: "call", Cancel: "none"}, {Kind: "sub", Cancel: "before"}}})
+		// subscription churn: open / end / open / end sequences (see runC06Churn)
+		for _, ops := range [][]c06Op{
+			{{"open_sub", 0}, {"open_sub", 0}, {"finish", 0}, {"open_sub", 0}, {"finish", 1}, {"open_call", 0}, {"cancel", 0}, {"open_sub", 0}, {"finish", 1}},
+			{{"open_sub", 0}, {"open_sub", 0}, {"open_sub", 0}, {"cancel", 1}, {"open_sub", 0}, {"cancel", 2}, {"finish", 0}, {"open_sub", 0}, {"finish", 1}},
+			{{"open_call", 0}, {"open_sub", 0}, {"open_call", 0}, {"finish", 0}, {"open_sub", 0}, {"cancel", 1}, {"open_call", 0}, {"finish", 0}, {"finish", 0}},
+		} {
+			ch := c06Churn{Ops: ops}
+			rec.Run(t, ch, true, []string{"churn"}, func() *Violation { return runC06Churn(ch) })
+		}
+	})
+	rec.Rapid(t, "rapid-churn", func(rt *rapid.T) {
+		n := rapid.IntRange(3, 14).Draw(rt, "nops")
+		var ch c06Churn
+		for i := 0; i < n; i++ {
+			ch.Ops = append(ch.Ops, c06Op{Op: rapid.SampledFrom([]string{"open_sub", "open_sub", "open_call", "cancel", "finish", "finish"}).Draw(rt, fmt.Sprintf("op%d", i)), Idx: rapid.IntRange(0, 5).Draw(rt, fmt.Sprintf("idx%d", i))})
+		}
+		rec.Run(rt, ch, true, []string{"churn"}, func() *Violation {
+			v := runC06Churn(ch)
+			if v != nil && v.Key != "spurious-cancel" {
+				if runC06Churn(ch) == nil {
+					return nil
+				}
+			}
+			return v
+		})
 	})
 	rec.Rapid(t, "rapid", func(rt *rapid.T) {
 		c := c06Case{Transport: "ws"}
@@ -316,7 +346,7 @@ func TestC06(t *testing.T) {
 		if c.Transport == "ws" {
 			m := rapid.IntRange(0, 3).Draw(rt, "nsubs")
 			for i := 0; i < m; i++ {
-				c.Calls = append(c.Calls, c06Call{Kind: "sub", Cancel: rapid.SampledFrom([]string{"none", "established", "established"}).Draw(rt, fmt.Sprintf("scancel%d", i))})
+				c.Calls = append(c.Calls, c06Call{Kind: "sub", Cancel: rapid.SampledFrom([]string{"none", "established", "established", "pending", "before"}).Draw(rt, fmt.Sprintf("scancel%d", i))})
 			}
 			nr := rapid.IntRange(0, 3).Draw(rt, "nrules")
 			for i := 0; i < nr; i++ {
@@ -330,6 +360,13 @@ func TestC06(t *testing.T) {
 
 func TestC06Replay(t *testing.T) {
 	Replay(t, "C06", 20, func(raw json.RawMessage) *Violation {
+		var probe map[string]json.RawMessage
+		_ = json.Unmarshal(raw, &probe)
+		if _, ok := probe["ops"]; ok {
+			var ch c06Churn
+			_ = json.Unmarshal(raw, &ch)
+			return runC06Churn(ch)
+		}
 		var c c06Case
 		if err := json.Unmarshal(raw, &c); err != nil {
 			return nil
@@ -337,4 +374,134 @@ func TestC06Replay(t *testing.T) {
 		v, _ := runC06(c)
 		return v
 	})
+}
+
+// ---- churn: a history of opening and ending calls/subscriptions on one connection ----------------
+
+type c06Op struct {
+	Op  string `json:"op"`  // open_sub | open_call | cancel | finish
+	Idx int    `json:"idx"` // which open item (modulo the number of open items)
+}
+
+type c06Churn struct {
+	Ops []c06Op `json:"ops"`
+}
+
+// runC06Churn executes the history step by step; after every step every handler that is still open and
+// was not cancelled by its caller must have a live context (the invariant of the state machine), and a
+// cancelled one must see its context done.
+func runC06Churn(c c06Churn) *Violation {
+	rig, err := NewRig(RigOpts{NoProxy: true})
+	if err != nil {
+		return nil
+	}
+	defer rig.Close()
+	cl, err := rig.NewClient("a")
+	if err != nil {
+		return nil
+	}
+	type item struct {
+		kind   string
+		tok    string
+		cancel context.CancelFunc
+		p      *Pending
+	}
+	var open []*item
+	step := 0
+	invariant := func(after string) *Violation {
+		if err := rig.Probe(cl, 2*time.Second); err != nil {
+			return violf("probe-failed", "step %d (%s): a plain call failed on a healthy connection: %v", step, after, err)
+		}
+		for _, it := range open {
+			if !rig.W.Running(it.tok) {
+				continue
+			}
+			if err := rig.W.Ctx(it.tok).Err(); err != nil {
+				return violf("spurious-cancel", "after step %d (%s): %s %s is open and was not cancelled by its caller, but its handler context is done (%v)", step, after, it.kind, it.tok, err)
+			}
+		}
+		return nil
+	}
+	for i, op := range c.Ops {
+		step = i
+		switch op.Op {
+		case "open_sub", "open_call":
+			it := &item{kind: "sub", tok: rig.Tok(fmt.Sprintf("k%d", i))}
+			ctx, cancel := context.WithCancel(context.Background())
+			it.cancel = cancel
+			p := &Pending{Kind: "sub", Tok: it.tok, Done: make(chan struct{})}
+			it.p = p
+			if op.Op == "open_call" {
+				it.kind, p.Kind = "call", "call"
+				go func() { defer close(p.Done); p.Res, p.Err = cl.C.Call(ctx, it.tok, Plan{Gate: true}) }()
+				if !rig.W.WaitStarted(it.tok, 3*time.Second) {
+					return nil
+				}
+			} else {
+				go func() { defer close(p.Done); p.Ch, p.Err = cl.C.Sub(ctx, it.tok, Plan{N: 3, Early: 1, Pace: true}) }()
+				select {
+				case <-p.Done:
+				case <-time.After(3 * time.Second):
+					return violf("subscribe-hangs", "step %d: subscribing call did not return on a healthy connection", i)
+				}
+				if p.Err != nil {
+					return violf("subscribe-failed", "step %d: subscription failed on a healthy connection: %v", i, p.Err)
+				}
+			}
+			open = append(open, it)
+		case "cancel", "finish":
+			if len(open) == 0 {
+				continue
+			}
+			k := op.Idx % len(open)
+			it := open[k]
+			open = append(open[:k], open[k+1:]...)
+			if op.Op == "cancel" {
+				hctx := rig.W.Ctx(it.tok)
+				it.cancel()
+				_ = rig.Probe(cl, 2*time.Second)
+				deadline := time.Now().Add(2 * time.Second)
+				for hctx.Err() == nil && rig.W.Running(it.tok) && time.Now().Before(deadline) {
+					time.Sleep(time.Millisecond)
+				}
+				if hctx.Err() == nil && rig.W.Running(it.tok) {
+					return violf("cancel-not-delivered", "step %d: %s %s was cancelled but its handler context is still live after 2s", i, it.kind, it.tok)
+				}
+				rig.W.Release(it.tok)
+				rig.W.Tick(it.tok, 5)
+			} else if it.kind == "call" {
+				rig.W.Release(it.tok)
+				select {
+				case <-it.p.Done:
+				case <-time.After(3 * time.Second):
+					return violf("uncancelled-call-hangs", "step %d: call %s did not return after its handler was released", i, it.tok)
+				}
+				if it.p.Err != nil {
+					return violf("uncancelled-call-failed", "step %d: call %s failed: %v", i, it.tok, it.p.Err)
+				}
+				if v := it.p.CheckOwn(); v != nil {
+					return v
+				}
+			} else {
+				// let the handler send its remaining values and close the stream itself
+				rig.W.Tick(it.tok, 5)
+				items, closed := drain(it.p.Ch, 3*time.Second)
+				if errs := rig.W.CtxErrDuringStream(it.tok); len(errs) > 0 {
+					return violf("spurious-cancel", "step %d: subscription %s (never cancelled) saw a done context while streaming: %v", i, it.tok, errs)
+				}
+				if !closed || len(items) != 3 {
+					return violf("uncancelled-stream-incomplete", "step %d: subscription %s delivered %d of 3 values (closed=%v)", i, it.tok, len(items), closed)
+				}
+				it.cancel()
+			}
+		}
+		if v := invariant(op.Op); v != nil {
+			return v
+		}
+	}
+	for _, it := range open {
+		it.cancel()
+		rig.W.Release(it.tok)
+	}
+	return nil
 }
